@@ -134,8 +134,12 @@ func TestVerifC18(t *testing.T) {
 
 	// ---- A. forced: response processed between write and arm (both unbatched and via a multi)
 	for _, rt := range []time.Duration{time.Millisecond, time.Second, 30 * time.Second} {
-		for _, batched := range []bool{false, true} {
+		for bi := 0; bi < 4; bi++ {
+			batched, dump := bi%2 == 1, bi >= 2
 			name := fmt.Sprintf("A/rt=%v/batched=%v", rt, batched)
+			if dump { // ... with the client's debug state read in that window (DebugState / MarshalJSON only LOOK at the connection)
+				name += "/debug-state-read-in-the-window"
+			}
 			verifsim.Bubble(t, func(t *testing.T) {
 				q := 1
 				if batched {
@@ -154,6 +158,11 @@ func TestVerifC18(t *testing.T) {
 					env.respondOK(req, 1, false)
 				}
 				synctest.Wait() // the reader consumes the response while the sender is parked
+				if dump {
+					if _, err := env.c.MarshalJSON(); err != nil {
+						rep.bad("harness:c18-dump", "%s: MarshalJSON failed: %v", name, err)
+					}
+				}
 				close(g.release)
 				synctest.Wait()
 				env.quiesce()
